@@ -126,7 +126,7 @@ func (br *bodyRun) step(st *State, ins ssa.Instruction, b *ssa.BasicBlock, idx i
 		if p.Kind == PElem {
 			for _, wr := range br.writeRanges {
 				if wr.li.blocks[b] && wr.ref == p.Ref {
-					fc.oblige(st, and(app("bvsle", wr.lo, p.Idx), app("bvslt", p.Idx, wr.hi)),
+					fc.oblige(st, and(app("bvsle", wr.lo, wr.hi), app("bvult", app("bvsub", p.Idx, wr.lo), app("bvsub", wr.hi, wr.lo))),
 						br.prefix+fc.ordName(fmt.Sprintf("loop-modifies:%d", wr.li.ordinal), ""), "inv-keep", x.Pos(), "store stays inside the loop's modifies range")
 				}
 			}
@@ -518,7 +518,8 @@ func (fc *FnCtx) memcpy(st *State, et types.Type, dst SliceV, dOff string, src S
 			srcN := fc.smt.defineAlways("cpysrc", inner, srcArr)
 			dstN := fc.smt.defineAlways("cpydst", inner, dstArr)
 			j := fc.smt.freshName("j")
-			in := and(app("bvsle", d0, j), app("bvslt", j, app("bvadd", d0, n)))
+			// d0 <= j < d0+n  written as  (j - d0) <u n  (n is a non-negative length)
+			in := app("bvult", app("bvsub", j, d0), n)
 			body := eq(app("select", na, j), ite(in, app("select", srcN, app("bvadd", s0, app("bvsub", j, d0))), app("select", dstN, j)))
 			fc.smt.addExtra(na, fmt.Sprintf("(forall ((%s (_ BitVec 64))) (! %s :pattern ((select %s %s))))", j, body, na, j))
 		}
